@@ -408,6 +408,24 @@ fn extra_cases() -> &'static Vec<ExtraCase> {
                 v.push(ExtraCase { c, texs, l: layouts[(i * 5) % layouts.len()].clone() });
             }
         }
+        // dimensions at and beyond every field width a reader might assume (11-bit hardware
+        // register, 12 bits, 16 bits minus one): a small texture first, the large one behind it
+        for (k, (w, h)) in [(2048usize, 8usize), (8, 2048), (4096, 8), (8, 4096), (1024, 1024), (32768, 8)].into_iter().enumerate() {
+            for (fi, fmt) in [Fmt::L8, Fmt::Rgba4].into_iter().enumerate() {
+                if w * h > 1 << 20 && fi == 1 {
+                    continue;
+                }
+                for c in [Container::Ctpk, Container::Bch, Container::Cgfx] {
+                    let texs = vec![make_3ds(k, Fmt::Rgba8, SIZES[0], "small", false), make_3ds(k + 9, fmt, (w, h), "large", false)];
+                    let layouts = match c {
+                        Container::Ctpk => rt::ctpk_layouts(),
+                        Container::Bch => rt::bch_layouts(false),
+                        _ => rt::cgfx_layouts(true),
+                    };
+                    v.push(ExtraCase { c, texs, l: layouts[(k * 3 + fi) % layouts.len()].clone() });
+                }
+            }
+        }
         // same bytes, different formats (formats of equal bits per pixel), same and different sizes
         let groups: [&[Fmt]; 2] = [&[Fmt::L8, Fmt::A8], &[Fmt::Rgba5551, Fmt::Rgb565, Fmt::Rgba4, Fmt::La8]];
         for g in groups {
